@@ -26,6 +26,7 @@ properties! {
     "C03" => c03,
     "C04" => c04,
     "C06" => c06,
+    "C07" => c07,
     "C08" => c08,
     "C10" => c10,
     "C11" => c11,
